@@ -142,7 +142,7 @@ class C10(Prop):
     N_QUICK = 90
     N_THOROUGH = 2500
     RULE = ("static: one population (phased with 1-4 phases, or unphased dosage with ploidy 1/2/4/6, as object or as "
-            "ndarray - with and without the ploidy argument) of 1-12 taxa or a boundary size (49, 98, 103, 107, 161, 187, "
+            "ndarray - with and without the ploidy argument, the ploidy a Python int or a numpy int8 .. int64 scalar) of 1-12 taxa or a boundary size (49, 98, 103, 107, 161, 187, "
             "196, 197), loci from the patterns "
             "fixed-1/fixed-0/one-copy-off/heterozygous/random, a best and a worst genotype added, additive models "
             "with 1-3 traits, effects of both signs and zeros, 1-3 fixed effects, optional metadata (variant mask with False "
@@ -311,6 +311,10 @@ class C10(Prop):
         c.update(extras)
         if kind == "ndarray" and k == 2 and rng.random() < 0.5:
             c["noploidy"] = True            # usl(Z) / lsl(Z): the documented default ploidy is 2
+        elif kind == "ndarray" and rng.random() < 0.6:
+            # the ploidy handed over as a numpy integer scalar (an Integral; e.g. Z.max()): ploidy * n leaves the range of
+            # int8 from 64 diploid taxa on
+            c["ploidy_np"] = rng.choice(["int8", "int8", "uint8", "int16", "int32", "int64"])
         if kind != "ndarray" and rng.random() < 0.4:
             c["meta"] = self._meta(rng, n, nv)
         return c
@@ -587,10 +591,17 @@ class C10(Prop):
         out.append({"kind": "wide", "n": 120, "nv": 7, "seed": 6, "ncross": 5, "nself": 1,
                     "runs": [["TwoWayCross", "int8"], ["SelfCross", "int8"], ["FourWayDHCross", "int8"],
                              ["ThreeWayCross", "uint8"]]})
-        # D62: `ploidy` handed to usl(Z, ploidy) / lsl(Z, ploidy) as a numpy int8 scalar (e.g. Z.max()): ploidy * shape[0] wraps
-        # for 64 <= n <= 127 diploid taxa; the fixed population at n = 98 gets limits 0 / 0 around the common value 4
+        # D62 regression: `ploidy` handed to usl(Z, ploidy) / lsl(Z, ploidy) as a numpy int8 scalar (e.g. Z.max()): before the
+        # repair ploidy * shape[0] wrapped for 64 <= n <= 127 diploid taxa and the fixed population at n = 98 got limits
+        # 0 / 0 around the common value 4; a polymorphic one at n = 107, a tetraploid one at n = 49 (4 * 49 = 196), int16
         out.append({"kind": "static", "path": "ndarray", "nv": 2, "ntrait": 1, "U": [[3], [-1]], "beta": [[0]], "ploidy_np": "int8",
                     "pop": {"nt": 98, "ploidy": 2, "Z": [[2, 2] for _ in range(98)]}})
+        out.append({"kind": "static", "path": "ndarray", "nv": 2, "ntrait": 2, "U": [[3, -1], [-1, 2]], "beta": [[1, 2]], "ploidy_np": "int8",
+                    "pop": {"nt": 107, "ploidy": 2, "Z": [[2, 0], [0, 2], [1, 1]] + [[2, 1] for _ in range(104)]}})
+        out.append({"kind": "static", "path": "ndarray", "nv": 2, "ntrait": 1, "U": [[1], [-2]], "beta": [[0]], "ploidy_np": "int8",
+                    "pop": {"nt": 49, "ploidy": 4, "Z": [[4, 0] for _ in range(49)]}})
+        out.append({"kind": "static", "path": "ndarray", "nv": 1, "ntrait": 1, "U": [[-1]], "beta": [[0]], "ploidy_np": "int16",
+                    "pop": {"nt": 20000, "ploidy": 2, "Z": [[2] for _ in range(20000)]}})
         # ... and where the product does not wrap the numpy scalar is as good as the Python int
         out.append({"kind": "static", "path": "ndarray", "nv": 2, "ntrait": 1, "U": [[3], [-1]], "beta": [[0]], "ploidy_np": "int8",
                     "pop": {"nt": 49, "ploidy": 2, "Z": [[2, 2] for _ in range(48)] + [[1, 2]]}})
@@ -772,7 +783,7 @@ class C10(Prop):
             with numpy.errstate(over="ignore"):
                 o = {"usl": gm.usl(Z, **kw), "lsl": gm.lsl(Z, **kw),
                      "usl_un": gm.usl(Z, unscale=True, **kw), "lsl_un": gm.lsl(Z, unscale=True, **kw),
-                     "gebv_un": gm.gebv(Z).unscale(), "afreq": Z.sum(0) / (pl * Z.shape[0])}
+                     "gebv_un": gm.gebv(Z).unscale(), "afreq": Z.sum(0) / (ploidy * Z.shape[0])}
         else:
             C10._touch(obj, touch[0::3])
             o = {"usl": gm.usl(obj)}
@@ -1054,8 +1065,6 @@ class C10(Prop):
             lim.update(U0=mo["U0"], beta0=mo["beta0"], edits_u=mo.get("edits_u") or [], edits_b=mo.get("edits_b") or [])
         if case.get("u_misc") is not None:
             lim["u_misc"] = case["u_misc"]
-        if case.get("ploidy_np"):
-            lim["ploidy_bits"] = 8 * numpy.dtype(case["ploidy_np"]).itemsize
         out = [(f"limits{i}", dict(lim, op="c10.limits", pop=p)) for i, p in enumerate(pops)]
         keys = ("usl", "lsl", "usl_un", "lsl_un", "gebv_raw", "gebv_un")
         out.append(("spec", dict(base, op="c10.spec", tol=canon.enc(TOL), pops=pops,
@@ -1128,7 +1137,7 @@ class C10(Prop):
                     bad.append(f"gen{gi}.{k}")
             for k in ("usl", "lsl", "usl_un", "lsl_un"):
                 kn = k.replace("sl", "sl_nd", 1)
-                if kn in o and not case.get("ploidy_np") and not canon.close_enc(m[k], o[kn], rel=1e-9, abs_=1e-9):
+                if kn in o and not canon.close_enc(m[k], o[kn], rel=1e-9, abs_=1e-9):
                     bad.append(f"gen{gi}.{kn}")
         if case["kind"] == "uhist":
             for i in range(len(case["steps"])):
@@ -1174,13 +1183,7 @@ class C10(Prop):
                 "detail": detail}
 
     def signature(self, case, obs, verdict):
-        sig = {"kind": case["kind"], "clauses": (verdict.get("detail", "").split("]")[0])[:200]}
-        if case.get("ploidy_np") and case["kind"] == "static" and case.get("path") == "ndarray" and not case.get("noploidy"):
-            n, k = case["pop"]["nt"], case["pop"]["ploidy"]
-            bits = 8 * numpy.dtype(case["ploidy_np"]).itemsize
-            if k * n >= 2 ** (bits - 1) and n < 2 ** (bits - 1):          # the product wraps, shape[0] itself still fits
-                sig["cond"] = "numpy_scalar_ploidy_product_wraps"
-        return sig
+        return {"kind": case["kind"], "clauses": (verdict.get("detail", "").split("]")[0])[:200]}
 
     @staticmethod
     def _retrait(case):
@@ -1575,7 +1578,20 @@ class C10(Prop):
                 return out
             return f
 
+        def limit_ploidy_product_in_callers_type(which):      # D62 undone: the denominator formed with the caller's scalar
+            def f(self, gtobj, ploidy=None, unscale=False, **kw):
+                if isinstance(gtobj, numpy.ndarray):
+                    ploidy = 2 if ploidy is None else ploidy
+                    with numpy.errstate(over="ignore"):
+                        p = gtobj.sum(0) / (ploidy * gtobj.shape[0])
+                else:
+                    p, ploidy = gtobj.afreq(), gtobj.ploidy
+                return getattr(self, which)(p, ploidy, unscale, **kw)
+            return f
+
         return [
+            ("usl_lsl_ploidy_product_in_callers_scalar_type_D62", lambda: patch((GM, "usl", limit_ploidy_product_in_callers_type("usl_numpy")),
+                                                                                 (GM, "lsl", limit_ploidy_product_in_callers_type("lsl_numpy")))),
             ("limits_read_marker_block_of_u_without_misc_offset", lambda: patch((GM, "usl_numpy", usl_ublock), (GM, "lsl_numpy", lsl_ublock))),
             ("effect_sign_mask_precomputed_by_setter", lambda: patch((GM, "u_a", ua_with_mask), (GM, "usl_numpy", usl_stale),
                                                                       (GM, "lsl_numpy", lsl_stale))),
